@@ -23,7 +23,7 @@ from lib import coq_list
 COQ_TARGETS = ["theories/Proofs/CacheLemmas.vo", "theories/Proofs/CacheMemo.vo", "theories/Model/CacheToy.vo"]
 WORKER = os.path.join(lib.VERIF, "harness", "c12_worker.py")
 THEOREMS = ["C12_memo_transparent", "C12_memo_transparent_immutable", "C12_history_independent",
-            "C12_inputs_untouched", "C12_refuted_strload_alias", "C12_refuted_isoformat_offset",
+            "C12_inputs_untouched", "C12_refuted_strload_alias",
             "C12_refuted_union_order", "C12_refuted_predicate_spelling", "C12_full_refuted"]
 MAXIDX = 8
 
@@ -446,6 +446,7 @@ def emit_world(w) -> str:
            "  match find (fun e => N.eqb (fst e) a) t with Some e => snd e | None => d end."]
     out.append(tbl("T_text", T["text"], "bool", b))
     out.append(tbl("T_temporal", T["temporal"], "bool", b))
+    out.append(tbl("T_isdelta", T["isdelta"], "bool", b))
     out.append(tbl("T_isnone", T["isnone"], "bool", b))
     out.append(tbl("T_len2", T["len2"], "bool", b))
     out.append(tbl("T_eqc", T["eqc"], "N", lambda v: "%d%%N" % v))
@@ -466,7 +467,7 @@ def emit_world(w) -> str:
     sel = lambda pre: "match t with " + " | ".join("%s => %s%s" % (s, pre, s) for s in stys) + " end"  # noqa: E731
     mx = lambda v: "None" if v is None else "(Some %d%%N)" % v  # noqa: E731
     out.append("Definition W : world := {|\n"
-               "  w_text := lk T_text false; w_temporal := lk T_temporal false; w_isnone := lk T_isnone false;\n"
+               "  w_text := lk T_text false; w_temporal := lk T_temporal false; w_isdelta := lk T_isdelta true; w_isnone := lk T_isnone false;\n"
                "  w_eqc := fun a => lk T_eqc a a; w_strload := fun a => lk T_strload (VA a) a;\n"
                "  w_iso := lk T_iso Unmodelled; w_decode := lk T_decode Unmodelled;\n"
                "  w_parse := fun a t => match t with SDateTime => lk T_parse_SDateTime Unmodelled a "
